@@ -402,13 +402,20 @@ def run(F, rep):
     # ------------------------------------------------------------------ Q1: "same owner" is not "both have none"
     rep.rule('C09.Q1', 'where two owner lookups (owningModel / owningComponent / parent) are compared for equality to decide "same model / same component", one of them is known to be non-null there: '
                        'two entities that have no such owner at all (never added, or top-level components, whose parent is a model and not a component) are otherwise taken to share one')
-    Q_EXEMPT = {'listComponentIdsAndItems': 'de-duplication of connection entries in the annotator index: in each conjunction one of the two comparisons involves a variable of the component being walked, which has an owner; '
+    Q_EXEMPT = {'areEntitiesSiblings': 'compares the parents (model or component) of two components; its callers (interface determination, reachability of equivalences) always pass the component of a variable that was reached by walking a model, so the two parents cannot both be missing',
+                'listComponentIdsAndItems': 'de-duplication of connection entries in the annotator index: in each conjunction one of the two comparisons involves a variable of the component being walked, which has an owner; '
                                             'equivalent variables without a component are all filed under one (component, none) connection, which has no id to offer anyway'}
     n_q = 0
 
-    def _src(n):
+    def _src(n, g_=None):
         while n.get('k') in ('Construct', 'Cast', 'Temp', 'Paren') and len(n.get('c', [])) == 1:
             n = n['c'][0]
+        # a local that holds the result of the lookup (`auto model = owningModel(x);`)
+        if g_ is not None and n.get('k') == 'Ref' and n.get('dk') == 'local':
+            from engines import single_def
+            i_ = single_def(g_, n.get('d'))
+            if i_ is not None:
+                return _src(i_)
         return n
     for g in F.funcs.values():
         if '/src/' not in g.file:
@@ -416,15 +423,15 @@ def run(F, rep):
         for b in g.walk():
             op = b.get('op') or b.get('opc')
             if b.get('k') in ('Bin', 'Call') and op in ('==', '!=') and len(b.get('c', [])) == 2:
-                l, r = _src(b['c'][0]), _src(b['c'][1])
+                l, r = _src(b['c'][0], g), _src(b['c'][1], g)
                 if nullres.source_kind(l) in ('owningComponent', 'owningModel', 'parent') and nullres.source_kind(r) in ('owningComponent', 'owningModel', 'parent'):
                     n_q += 1
                     key = '%s|%s' % (g.name, render(b)[:70])
-                    if g.name in Q_EXEMPT:
+                    if g.name in Q_EXEMPT and not (g.name == 'areEntitiesSiblings' and {nullres.source_kind(l), nullres.source_kind(r)} != {'parent'}):
                         rep.exempt('C09.Q1', key, Q_EXEMPT[g.name])
                         continue
                     # a sibling conjunct (or a dominating condition) tests one of the two lookups against null
-                    texts = {render(l), render(r)}
+                    texts = {render(l), render(r), render(b['c'][0]), render(b['c'][1])}
                     nn = False
                     for cnd, t in (ff(g).conds_at(b) or []):
                         from facts import null_test
@@ -434,6 +441,45 @@ def run(F, rep):
                     rep.check(nn, 'C09.Q1', key, g.where(b), '%s decides "same owner" by `%s` although both sides can be null: entities without that owner all look alike' % (g.short, render(b)[:80]), 'one side tested non-null')
     if n_q < 3:
         raise AnalysisBroken('C09.Q1: comparisons of two owner lookups: %d found, 5 confirmed' % n_q)
+
+    # ------------------------------------------------------------------ I2: positions computed from an index
+    rep.rule('C09.I2', 'an insertion into a child container at begin() + index, made after calls that can remove elements from that container (the replaced child, and the new child when it was already listed here), '
+                       're-bounds the index first (index = min(index, size)): otherwise the position lies beyond end()')
+    from faillog import _can_reach as _cri
+    n_i2 = 0
+    for f in F.funcs.values():
+        if f.cls not in ('libcellml::Model', 'libcellml::ComponentEntity', 'libcellml::Component', 'libcellml::Units'):
+            continue
+        for n in f.walk():
+            if not (n.get('k') == 'Call' and n.get('mc') and n.get('fn') == 'insert' and is_container(receiver(n)) and len(n.get('c', [])) >= 3):
+                continue
+            pos = n['c'][1]
+            idx = [x for x in walk(pos) if x.get('k') == 'Ref' and x.get('dk') in ('parm', 'local') and 'long' in (x.get('t') or '')]
+            if not idx or not any(x.get('k') == 'Call' and x.get('fn') in ('begin', 'cbegin') for x in walk(pos)):
+                continue
+            n_i2 += 1
+            d = idx[0]['d']
+            cont = receiver(n)['n']
+            cfg = f.cfg()
+            removers = []
+            for c in f.walk():
+                if c.get('k') != 'Call' or c is n or not _cri(cfg, c, n):
+                    continue
+                if c.get('mc') and c.get('fn') == 'erase' and receiver(c) is not None and receiver(c).get('n') == cont:
+                    removers.append(c)
+                    continue
+                for ck in F.callee_keys(c):
+                    h = F.funcs.get(ck)
+                    if h is not None and (h.name.startswith('remove') or h.name.startswith('take')) and cont in fields.this_writes(F, h):
+                        removers.append(c)
+            clamps = [a for a in f.walk() if ((a.get('k') == 'Bin' and a.get('op') == '=') or (a.get('k') == 'Call' and a.get('opc') == '=')) and a['c'][0].get('k') == 'Ref' and a['c'][0].get('d') == d
+                      and any(x.get('k') == 'Call' and (x.get('callee') or '') in ('std::min',) for x in walk(a['c'][1])) and cont + '.size()' in render(a['c'][1]) and cfg.node_dominates(a, n)]
+            late = [r for r in removers if not any(_cri(cfg, r, cl) for cl in clamps)]
+            rep.check(not removers or (bool(clamps) and not late), 'C09.I2', '%s/%d|%s.insert' % (f.short, len(f.params), cont), f.where(n),
+                      '%s inserts at begin() + %s after %d call(s) that can remove elements from %s (%s) without re-bounding the index: when the replacement was already a child at a lower index the position is past the end' % (f.short, idx[0]['n'], len(removers), cont, ', '.join(sorted({render(r)[:30] for r in removers}))),
+                      'index clamped to size() after the removals')
+    if n_i2 < 2:
+        raise AnalysisBroken('C09.I2: positional insertions into child containers: %d found, 2 confirmed' % n_i2)
 
 
 
